@@ -1,8 +1,8 @@
 #!/bin/bash
-# Parallel version of seed_matrix.sh: usage tools/seed_matrix_par.sh <workers> <seed-dir-glob> [outfile]
+# Parallel version of seed_matrix.sh: usage tools/seed_matrix_par.sh <workers> "<seed-dir-glob> [<glob> ...]" [outfile]
 # Each worker has its own private copy directory (SEED_RUN=/tmp/seedrun_<k>); /repo is never touched.
 W=${1:-4}; G=${2:-*}; OUT=${3:-/verif/seeded/MATRIX.txt}
-ls -d /verif/seeded/$G/ | xargs -n1 basename > /tmp/seed_matrix_list.$$
+ls -d $(for g in $G; do echo /verif/seeded/$g/; done) | xargs -n1 basename > /tmp/seed_matrix_list.$$
 : > /tmp/seed_matrix_out.$$
 run_one() {
   s=$1; k=$2
